@@ -57,7 +57,7 @@ CMD = "deepdiff/commands.py"
 COQ_RESERVED = set("""
 as at cofix else end exists exists2 fix for forall fun if IF in let match mod Prop return Set then Type using where with
 Definition Fixpoint Lemma Theorem Proof Qed W MW MA tt true false Some None negb orb andb s2p pystr pystr_eqb bak nat bool unit list option
-FJson FYaml FToml FPickle FCsv MYaml MTomliW MTomli CatchException CatchBaseException world M res Ok Raise fst snd
+FJson FYaml FToml FPickle FCsv MYaml MTomliW MTomli CatchException CatchBaseException world M res Ok Raise fst snd X doc delta path_
 """.split())
 
 
@@ -677,9 +677,6 @@ class Fn:
         if any(x.annotation is not None for x in a.args):
             self.bad(n, "annotated parameters")
         env = dict(PARAM_KINDS[self.name])
-        if self.name == "load_path_content":
-            # A5 is recognised inside the if-chain: pre-check handled in block() via csv_branch below
-            pass
         body = self.block(n.body, env, None, 1) if self.name != "load_path_content" else self.load_body(n.body, env)
         params = " ".join("(%s : %s)" % (ident(p), COQ_TYPE[PARAM_KINDS[self.name][p]]) for p in names)
         res = {"unit": "unit", "doc": "doc"}[RESULT[self.name]]
@@ -719,6 +716,8 @@ class Translator:
             src = open(p, encoding="utf-8").read()
         except OSError as e:
             raise Unsupported("%s: cannot read (%s)" % (rel, e))
+        if "__csv_load__" in src:
+            raise Unsupported("%s: the name __csv_load__ (the translator's internal marker for rule A5) occurs in the source" % rel)
         try:
             return ast.parse(src)
         except SyntaxError as e:
